@@ -596,7 +596,8 @@ def r_utm_constants(cx):
         ok = False
         got = None
         if len(vals) == 1:
-            a, cst = affine_f(vals[0][1])
+            import elems as E
+            a, cst = affine_f(E.look_through_calls(f, vals[0][1]))
             got = (sorted(str(k) for k in a.values()), str(cst))
             zone_syms = [s for s in a if "natural" in str(s) or "zone" in mir.show(s, maxd=6)]
             ok = len(a) == 1 and list(a.values())[0] == Fraction(want["lon_0_per_zone"]) and cst == Fraction(want["lon_0_offset"]) \
